@@ -34,6 +34,8 @@ pub struct ConcProfile {
   pub close_own_in: u64,
   /// one operation in this many gets an extra, unprompted poll while it is pending (F7)
   pub spurious_poll_in: u64,
+  /// consumers go idle in between (COp::Pause)
+  pub idle_consumer: bool,
 }
 
 impl ConcProfile {
@@ -52,6 +54,7 @@ impl ConcProfile {
       blocking_only: false,
       close_own_in: 1,
       spurious_poll_in: 8,
+      idle_consumer: false,
     }
   }
 }
@@ -131,6 +134,7 @@ impl ConcFamily {
         2 if fl.multi_consumer() => ops.push(COp::CloneDrop),
         3 => ops.push(COp::Observe),
         4 => ops.push(COp::Yield),
+        5 | 6 | 7 if p.idle_consumer => ops.push(COp::Pause { rounds: 400, eager: rng.chance(1, 4) }),
         _ => {}
       }
       let mut forms = vec![RecvForm::Single, RecvForm::Single, RecvForm::Try];
